@@ -249,7 +249,9 @@ func (c *Client) JoinPresence(ctx context.Context, p stanza.Presence, s *xmpp.Se
 		session: s,
 
 		join:   make(chan joinCtx, 1),
-		depart: make(chan struct{}),
+		// Buffered so that the notification is not lost if the unavailable
+		// presence is handled before Leave starts waiting for it.
+		depart: make(chan struct{}, 1),
 	}
 	if c.managed == nil {
 		c.managed = make(map[string]*Channel)
